@@ -270,6 +270,35 @@ def writeAll : List Val → Bytes → Bytes
   | [], buf => buf
   | v :: vs, buf => writeAll vs (write v buf).2
 
+/-! ### histories: writes and reads interleaved -/
+
+inductive BOp
+  | w (v : Val)   -- a typed write
+  | r             -- a typed read of the type of the oldest value not yet read
+deriving DecidableEq, Repr
+
+/-- run a history on a buffer. `pending` is ghost state (the values written and not yet read) that only selects
+    the type each read asks for; a read with nothing pending is skipped. -/
+def history : Bytes → List Val → List BOp → List (Out Val) × Bytes
+  | buf, _, [] => ([], buf)
+  | buf, pending, .w v :: ops => history (write v buf).2 (if writeOk v then pending ++ [v] else pending) ops
+  | buf, [], .r :: ops => history buf [] ops
+  | buf, v :: pending, .r :: ops =>
+    let r := decBuf (tyOf v) buf
+    let rs := history r.2 pending ops
+    (r.1 :: rs.1, rs.2)
+
+/-- the specification: an ideal first-in-first-out queue of values — what the reads return, what stays queued -/
+def fifoSpec : List Val → List BOp → List Val × List Val
+  | q, [] => ([], q)
+  | q, .w v :: ops => fifoSpec (q ++ [v]) ops
+  | [], .r :: ops => fifoSpec [] ops
+  | v :: q, .r :: ops => let rs := fifoSpec q ops; (v :: rs.1, rs.2)
+
+def BOp.valid : BOp → Prop
+  | .w v => Valid v
+  | .r => True
+
 /-! ### ReWrite -/
 
 /-- `ReWrite(pos, p)`: `copy(buf[pos:], p)` over the unread bytes. `none` = the slice expression panics
@@ -341,6 +370,11 @@ def streamFixed (c : Cfg) (n : Nat) (s : Src) : Out Nat × Src :=
 def Ty.streamable : Ty → Bool
   | .varU64 | .varI64 | .varU32 | .varI32 => false
   | _ => true
+
+/-- the reads whose only primitive is `Read(p)`: fixed widths, bool, byte, Read, ReadN -/
+def Ty.fixedLike : Ty → Bool
+  | .bool | .u8 | .u16 | .i16 | .u32 | .i32 | .u64 | .i64 | .f64 | .read _ | .readN _ => true
+  | _ => false
 
 /-- typed read on a ReaderX (types it does not offer: `wrongNum`, nothing consumed — never used, see `streamable`) -/
 def decStream (c : Cfg) (ty : Ty) (s : Src) : Out Val × Src :=
